@@ -205,7 +205,12 @@ def rule_r1(chk, facts, P):
                 ex = blk['elems'][i][1]
                 sink = data_sink(P, f, ex, n)
                 if sink:
-                    ok, det = True, 'operand of report sink %s' % sink
+                    esc = buffer_escapes(P, f, ex, n) if sink in BUFFER_SINKS else None
+                    if esc:
+                        ok, det = False, ('%s formats with %s into %s, which is then handed to %s together with the caller\'s '
+                                          'result: the text becomes part of an expression value' % (sink, opt, esc[0], esc[1]))
+                    else:
+                        ok, det = True, 'operand of report sink %s' % sink
             if not ok:
                 if fmod is None:
                     fmod = mod_closure(P, f)
@@ -231,6 +236,37 @@ def rule_r1(chk, facts, P):
 SINKS = {'printf', 'fprintf', 'sprintf', 'as_snprintf', 'as_snprcatf', 'as_sdprintf', 'as_sdprcatf', 'SysString',
          'HexString', 'DecString', 'StrSym', 'IntLine', 'WrLstLine', 'WrConsoleLine', 'LargeString', 'strmaxcpy',
          'strmaxcat', 'Blanks', 'AddLineInfo', 'AddSectionUsage', 'PrintChunk'}
+
+
+BUFFER_SINKS = {'sprintf', 'as_snprintf', 'as_snprcatf', 'as_sdprintf', 'as_sdprcatf', 'SysString', 'HexString', 'DecString',
+                'StrSym', 'LargeString', 'strmaxcpy', 'strmaxcat'}
+
+
+def buffer_escapes(P, f, ex, node):
+    """The sink formats into a local buffer of f; does that buffer (or a pointer copied from it) reach a call that also
+    receives one of f's pointer parameters (an out-parameter: the caller's result)?  Returns (buffer, callee) or None."""
+    dest = None
+    for m in walk_own(ex):
+        if m[0] == 'call' and callee_name(m) in BUFFER_SINKS and any(x is node for a in m[2] for x in walk(a)) and m[2]:
+            d = strip(m[2][0])
+            if d[0] == 'u' and d[1] == '&':
+                d = strip(d[2])
+            if d[0] == 'l':
+                dest = d
+    if dest is None:
+        return None
+    al = {dest}
+    for b, i, ln, m in f.nodes():
+        if is_assign(m) and m[1] == '=' and strip(m[2])[0] == 'l' and strip(m[3]) in al:
+            al.add(strip(m[2]))
+    pparams = {('p', q['name']) for q in f.params if q['type'].get('ptr')}
+    for b, i, ln, m in f.nodes():
+        if m[0] != 'call' or callee_name(m) in BUFFER_SINKS or callee_name(m) in ('strlen', 'strcmp'):
+            continue
+        if any(strip(a) in al for a in m[2]) and any(
+                any(isinstance(x, (list, tuple)) and len(x) == 2 and x[0] == 'p' and ('p', x[1]) in pparams for x in walk(a)) for a in m[2]):
+            return show(dest), callee_name(m) or '?'
+    return None
 
 
 def data_sink(P, f, ex, node):
@@ -262,6 +298,42 @@ R1_EXC = {
     'asmallg.c:CodeSHARED:ShareMode': 'share format 3 asks IsSymbolChangeable(), which repeats the symbol lookup the '
                                       'statement has already made unconditionally for every format',
 }
+
+
+def rule_r6(chk, facts, P):
+    chk.rule('C17-R6', 'generated symbol names are independent of the listing format options: (a) every as_snprintf() that '
+             'builds a name starting with "__" (temporary symbols) uses only %d and %s conversions, and (b) in the common '
+             'formatter the %d conversion does not hand SplitByteCharacter to SysString() (the split argument is a '
+             'conditional on the signed-conversion flag that %d sets)', min_instances=5)
+    n = 0
+    for f in P.all_funcs():
+        if is_gen(f.unit.name):
+            continue
+        for b, i, ln, c in f.calls({'as_snprintf', 'as_snprcatf', 'as_sdprintf'}):
+            fmt = [nocast(a) for a in c[2] if nocast(a)[0] == 's']
+            if not fmt or not fmt[0][1].startswith('__'):
+                continue
+            n += 1
+            convs = re.findall(r'%[-+0-9.*l]*([a-zA-Z])', fmt[0][1])
+            ok = all(x in ('d', 's') for x in convs)
+            chk.ob('C17-R6', '%s:%s:name-format:%s' % (f.unit.name, f.name, fmt[0][1]), ok, f.loc(ln),
+                   'only %d/%s' if ok else 'the generated name uses a conversion (%s) that -h / -SPLITBYTE / radix options change' % convs)
+    vf = facts.func('strutil.c', 'vsprcatf_core')
+    sets_signed = False
+    for b, i, ln, m in vf.nodes():
+        if is_assign(m) and strip(m[2])[0] == 'm' and strip(m[2])[2].endswith('.Signed') and const_val(m[3]) == 1:
+            sets_signed = True
+    for b, i, ln, c in vf.calls('SysString'):
+        n += 1
+        last = nocast(c[2][-1])
+        ok = sets_signed and last[0] == '?' and mentions(last[1], lambda x: isinstance(x, (list, tuple)) and len(x) > 2 and x[0] == 'm' and x[2].endswith('.Signed')) \
+            and const_val(last[2]) == 0
+        chk.ob('C17-R6', 'strutil.c:vsprcatf_core:%d-not-split', ok, vf.loc(ln),
+               'signed decimal conversions are not split' if ok else
+               'every integer conversion of as_snprintf() applies SplitByteCharacter, including the %d that builds '
+               '"__back%d"/"__forw%d": with -SPLITBYTE temporary symbols become invalid names')
+    if n < 5:
+        raise AnalysisBroken('generated-name formats / formatter call not found')
 
 
 def rule_r2(chk, facts, P):
@@ -367,6 +439,7 @@ def run(chk, facts, info):
     if n5 < 80:
         raise AnalysisBroken('only %d ChkIO call sites found' % n5)
     rule_r4(chk, facts, P)
+    rule_r6(chk, facts, P)
     chk.note('Decided: non-interference of report-only options with code-affecting state (per read site), confinement '
              'of the dual-use formatting options, reviewed sites of clock/environment reads, single option decoder. Not '
              'decided: listing/MAP text reproducibility, locale-dependent folding of non-ASCII letters, -A tree shape.')
